@@ -217,6 +217,7 @@ def check(case):
         if k != 'v_err':
             P.set_variable(k, v)
     log = []
+    kept = []
     rec_calls = []
 
     def rec(*args):
@@ -250,6 +251,7 @@ def check(case):
                 return
             lab = cell.label
             log.append((idx, kind, lab, cell.row.index, cell.col.index, cell.row.is_absolute, cell.col.is_absolute))
+            kept.append((cell, (lab, cell.row.index, cell.col.index, cell.row.is_absolute, cell.col.is_absolute)))
             for t in tpl:
                 if t == 'nested':
                     nested()
@@ -260,6 +262,8 @@ def check(case):
             if state['nested']:
                 return
             log.append((idx, kind, start.row.index, start.col.index, end.row.index, end.col.index, (start.label, end.label)))
+            for c in (start, end):
+                kept.append((c, (c.label, c.row.index, c.col.index, c.row.is_absolute, c.col.is_absolute)))
             for c, nm in ((start, 'start'), (end, 'end')):
                 p = rc.parse_label(c.label) if isinstance(c.label, str) else None
                 if p is None or p != (c.row.index, c.col.index, c.row.is_absolute, c.col.is_absolute):
@@ -325,6 +329,11 @@ def check(case):
     text = gf.render(tree)
     r = P.parse(text)
     d = '%s with listeners %r: ' % (text, L)
+    for c, was in kept:
+        now = (c.label, c.row.index, c.col.index, c.row.is_absolute, c.col.is_absolute)
+        if now != was:
+            problems.append('a cell object a listener was handed for %s reads %s once the evaluation is over (a listener that keeps what it is handed sees another reference)' % (was[0], now[0]))
+            break
     if problems:
         raise Violation(d + problems[0], problems[0], None)
     # expected log: each event once per listener of its kind, listeners in subscription order
